@@ -1167,6 +1167,11 @@ impl Broker {
 
         self.channels.insert(cookie, channel);
 
+        #[cfg(feature = "statistics")]
+        {
+            self.statistics.num_channels = self.statistics.num_channels.saturating_add(1);
+        }
+
         send!(
             self,
             conn,
@@ -1175,11 +1180,6 @@ impl Broker {
                 cookie,
             },
         )?;
-
-        #[cfg(feature = "statistics")]
-        {
-            self.statistics.num_channels = self.statistics.num_channels.saturating_add(1);
-        }
 
         Ok(())
     }
